@@ -190,3 +190,10 @@ void h_push(void) {
   VASSERT(G.swung == 1 && G.linked == 1, "H: C13 push publishes its node with one tail CAS and links it (old_tail->prev) before returning");
   VCANARY("push can return");
 }
+/* init: from ANY memory content the queue starts empty: head == tail == the caller's dummy node, unlinked, no value */
+void h_init(void) {
+  static mpmc_fifo_t X; static mpmc_fifo_node_t N0; memset(&X, (int)verif_u64(), sizeof(X)); memset(&N0, (int)verif_u64(), sizeof(N0));
+  int r = mpmc_fifo_init(&X, &N0);
+  VASSERT(r == 1 && X.head == &N0 && X.tail == &N0 && N0.prev == 0 && N0.next == 0 && N0.value == 0, "H: C13 init: empty queue on the caller's dummy node (unlinked, no value), whatever the memory held");
+  VCANARY("init can return");
+}
